@@ -257,6 +257,47 @@ fn run_program(seed: u64, hid: u64, maxops: usize) {
             if !same {
                 line!("X forwarding_differs_from_std hash={} {} {}", hb, hs, hstr);
             }
+            // operators: + and += with a &str, indexing by every range form (also mutably), BorrowMut
+            {
+                let (mut bc, mut sc) = (b.clone(), s.clone());
+                bc += "é+"; sc += "é+";
+                let (bc, sc) = (bc + "€", sc + "€");
+                let mut ok = bc.as_bytes() == sc.as_bytes();
+                let n = sc.len();
+                for a in 0..=n { for e in a..=n {
+                    if sc.is_char_boundary(a) && sc.is_char_boundary(e) {
+                        ok = ok && bc[a..e] == sc[a..e] && bc[a..] == sc[a..] && bc[..e] == sc[..e] && bc[..] == sc[..];
+                        if e > 0 && sc.is_char_boundary(e - 1) { ok = ok && bc[a.min(e - 1)..=e - 1] == sc[a.min(e - 1)..=e - 1] && bc[..=e - 1] == sc[..=e - 1]; }
+                    }
+                } }
+                let (mut bc, mut sc) = (bc, sc);
+                (&mut bc[..]).make_ascii_uppercase(); (&mut sc[..]).make_ascii_uppercase();
+                { let m: &mut str = std::borrow::BorrowMut::borrow_mut(&mut bc); m.make_ascii_lowercase(); }
+                sc.make_ascii_lowercase();
+                ok = ok && bc.as_bytes() == sc.as_bytes();
+                if !ok { line!("X operators_differ_from_std {}", hex(bc.as_bytes())); }
+            }
+            // the mutable views and the raw round trip: as_mut_str, as_mut_vec, from_raw_parts_in,
+            // from_utf8_unchecked
+            {
+                let (mut bc, mut sc) = (b.clone(), s.clone());
+                bc.as_mut_str().make_ascii_uppercase();
+                sc.as_mut_str().make_ascii_uppercase();
+                unsafe { bc.as_mut_vec().push(b'!'); sc.as_mut_vec().push(b'!'); }
+                let ok1 = bc.as_bytes() == sc.as_bytes() && bc.len() == sc.len();
+                bc.reserve(5);
+                let (p, l, c) = (bc.as_ptr() as *mut u8, bc.len(), bc.capacity());
+                std::mem::forget(bc);
+                let mut back = unsafe { BString::from_raw_parts_in(p, l, c, &bump) };
+                let ok2 = back.as_bytes() == sc.as_bytes() && back.capacity() == c && back.as_ptr() == p as *const u8;
+                back.push_str("zz"); sc.push_str("zz");
+                let ok3 = back.as_bytes() == sc.as_bytes() && back.as_ptr() == p as *const u8;
+                let un = unsafe { BString::from_utf8_unchecked(BVec::from_iter_in(sc.bytes(), &bump)) };
+                let ok4 = un.as_str() == sc.as_str();
+                if !(ok1 && ok2 && ok3 && ok4) {
+                    line!("X raw_views_differ_from_std {} {} {} {}", ok1, ok2, ok3, ok4);
+                }
+            }
         }
         if bo.res == "panic" || so.res == "panic" {
             if !bo.valid {
